@@ -9,6 +9,7 @@ from ..core import call_attr, calls_in, dotted, kwarg, norm, slice_parts, text, 
 from . import c09
 
 EXPLANATION = [
+    'C07.field-order: every credit-based L2CAP frame class declares mtu, mps, initial_credits in that order (declaration order is wire order).',
     'C07.reset-before-sink: LeCreditBasedChannel.on_pdu empties its reassembly buffer before the completed SDU is handed to the sink on every path (a raising sink does not cost the next SDU).',
     'C07.allocator-scan: every CID a find_free_* allocator returns was individually tested against the table it was given, or comes from the scanning allocator it delegates to (shared with C09).',
     'C07.index-at-response: no method of ChannelManager enters a channel into le_coc_channels after an await: the destination-CID index is filled while the connection request / response is being processed, so credits sent right behind a response find their channel.',
@@ -464,7 +465,26 @@ def reset_before_sink(ctx):
     reset_before_handoff(ctx, 'C07.reset-before-sink', 'bumble.l2cap.LeCreditBasedChannel.on_pdu', 'self.in_sdu', 'self.sink')
 
 
+def field_order(ctx):
+    """The credit-based connection frames carry MTU, then MPS, then the initial credits (Vol 3 Part A 4.22-4.26): the wire
+    layout of these dataclasses is their declaration order, and every user reads the fields by name - a swapped pair
+    changes nothing between two Bumble devices and everything for any other peer (frames larger than the MPS it gave)."""
+    R, p = ctx.r, ctx.p
+    rule = 'C07.field-order'
+    n = 0
+    for cn, ci in sorted(p.classes.items()):
+        if not cn.startswith('bumble.l2cap.L2CAP_') or 'mtu' not in ci.annots or 'mps' not in ci.annots:
+            continue
+        n += 1
+        order = [k for k in ci.annots if k in ('mtu', 'mps', 'initial_credits')]
+        R.check(order in (['mtu', 'mps', 'initial_credits'], ['mtu', 'mps']), rule, cn, f'declared {order}', f'{ci.name} declares {order}: MTU and MPS (and the credits) are written to the wire in that order, so a peer that follows the specification reads the MPS where the MTU is - it is then sent frames larger than the MPS it asked for', p.loc(ci.node))
+        keys = list(ci.annots)
+        R.check(keys.index('mps') == keys.index('mtu') + 1, rule, f'{cn} | adjacent', 'mps directly follows mtu', f'{ci.name}: a field stands between mtu and mps ({keys})', p.loc(ci.node))
+    R.check(n >= 5, rule, 'bumble.l2cap | credit-based frames', f'{n} frame classes', f'only {n} found')
+
+
 RULES = [
+    ('C07.field-order', field_order),
     ('C07.reset-before-sink', reset_before_sink),
     ('C07.allocator-scan', allocator_scan_rule),
     ('C07.index-at-response', index_at_response),
